@@ -256,7 +256,7 @@ def main():
             "guard": "EXPONAX_VERIF",
             "enable": "EXPONAX_VERIF=1 (set by bin/check); exponax is an editable install of /repo, so checks import the current working tree",
             "baseline_off_cmd": "cd /repo && env -u EXPONAX_VERIF /venv/bin/python -m pytest -ra -q -p no:cacheprovider --timeout=900 --continue-on-collection-errors",
-            "source_commits": ["ec819bc"],
+            "source_commits": ["ec819bc", "d6c4536"],
             "add_only": True,
         },
         "engines": [
